@@ -106,12 +106,18 @@ PROPS = {
     "C10": {
         "level": "other",
         "explanation": "key_entry_cmp = 0 exactly when AS, all 20 SKI bytes, all 91 key bytes and the source are equal; the record/entry "
-                       "conversions copy every byte (complete, all inputs). The table operations on the real tommyds hash table "
-                       "(unit spki_hist: histories against the mathematical set, lookups, callbacks, lock protocol) exceed the "
-                       "sandbox's memory/time in CBMC and are NOT part of the registered tiers (lab tier, run by hand); add / remove / "
-                       "lookup / remove-by-source / copy / swap are therefore not decided by a registered check.",
+                       "conversions copy every byte (complete, all inputs). The real walking loops on hand-built bucket chains / lists of at "
+                       "most 3 entries whose AS, SKI, key and source are drawn from two-value pools incl. entries differing in the last "
+                       "byte only (bounded): spki_table_get_all returns exactly the entries with that AS and SKI, "
+                       "spki_table_search_by_ski exactly those with that SKI, each once, in order, byte for byte; "
+                       "spki_table_src_remove unlinks, releases and reports exactly that source's entries and keeps the others in "
+                       "order. NOT decided by a registered check: spki_table_add_entry / spki_table_remove_entry as a whole (units "
+                       "spki_add / spki_remove on the real inline tommy_hashlin_search do not finish here: lab tier), copy, swap, "
+                       "notify_diff, and histories on the real tommyds hash table incl. its resize steps (spki_hist, lab tier).",
         "trusted": [],
-        "assumptions": ["only the comparison and conversion functions are decided"],
+        "assumptions": ["tommyds bucket contract: the bucket of a hash holds all entries with that hash and possibly others (every bucket of the "
+                        "modelled table points to the one chain)", "tommy_hashlin_remove_existing returns the node's data (third-party, stubbed)",
+                        "memcmp reads exactly the given lengths (own byte loop with one region check per call)"],
     },
     "C11": {
         "level": "other",
@@ -151,8 +157,10 @@ PROPS = {
         "explanation": "Lock protocol per function, sequentially: the table roots are only meaningful inside a critical section (lock stubs park "
                        "junk outside), so a read before the lock or after the unlock breaks the postcondition. Verified for "
                        "pfx_table_validate_r (one read section, released on every path; unbounded unit validate_v4), pfx_table_swap "
-                       "(both write locks), pfx_table_add / pfx_table_remove (one write-locked section, callbacks after release). The "
-                       "router-key table is covered only by the lab-tier unit spki_hist. Data-race freedom and linearizability follow only with the rwlock semantics (paper "
+                       "(both write locks), pfx_table_add / pfx_table_remove (one write-locked section, callbacks after release). For the "
+                       "router-key table the same parking (hash table and list are junk outside the lock) is applied to "
+                       "spki_table_get_all, spki_table_search_by_ski (one read section) and spki_table_src_remove (one write section) on "
+                       "chains of at most 3 entries; add / remove only in the lab tier. Data-race freedom and linearizability follow only with the rwlock semantics (paper "
                        "lemma); no interleaving is explored; pfx_table_for_each_* / pfx_table_free read the roots before locking "
                        "(seen by reading; the history unit that would show it runs in the thorough tier).",
         "trusted": ["pthread rwlock semantics"],
@@ -164,7 +172,8 @@ PROPS = {
                        "(failed shrink restores, failed append changes nothing; any array length), rtr_store_prefix_pdu (buffer and index "
                        "untouched), rtr_mgr_init (no success without a configuration, nothing invalid freed), pfx_table_add / "
                        "pfx_table_remove (a failing callee yields PFX_ERROR without notification or root change), pfx_table_free (every "
-                       "block released exactly once, bounded). Allocator "
+                       "block released exactly once, bounded), router-key lookups (a failing realloc yields SPKI_ERROR with the lock released and "
+                       "nothing foreign freed) and removal by source (exactly the removed entries are released, each once; bounded). Allocator "
                        "consistency (every block returned to the allocator it came from) is not decided by contracts; the mismatch in "
                        "spki_table_free was found by reading and fixed.",
         "trusted": [],
@@ -434,6 +443,13 @@ UNITS = [
       defines=["STORE_EMPTY", "STORE_RECV_CONTRACT"], unwind_functions={"rtr_sync_receive_and_store_pdus": 2, "strlen": 70},
       native=None, link=PKT_LINK, timeout=2400, object_bits=10, mem_gb=40,
       stubs=["lrtr_malloc", "lrtr_realloc", "lrtr_free", "pfx_table_*", "spki_table_*", "lrtr_dbg", "pthread_setcancelstate"]),
+    U(id="store_9q", props=["C03", "C06"], file="units/store.c", entry="h_store", tier="lab",
+      enforce=[], checked_by_assertions=["rtr_sync_receive_and_store_pdus"], need_classes=["assertion", "precondition"],
+      replace=["rtr_receive_pdu/rtr_receive_pdu__store", "rtr_send_error_pdu_from_host", "rtr_handle_error_pdu/rtr_handle_error_pdu__client", "verif_fmt"],
+      kind="bounded: one Router Key PDU (any content the receive contract can deliver) + terminal event",
+      defines=["STORE_SHAPE=9", "STORE_RECV_CONTRACT", "STORE_TERM_EOD"], unwind_functions={"rtr_sync_receive_and_store_pdus": 3, "strlen": 70},
+      native=None, link=PKT_LINK, timeout=2400, object_bits=10, mem_gb=40,
+      stubs=["lrtr_malloc", "lrtr_realloc", "lrtr_free", "pfx_table_*", "spki_table_*", "lrtr_dbg", "pthread_setcancelstate"]),
     U(id="store_E", props=["C03", "C05", "C06", "C13", "C14", "C17"], file="units/store.c", entry="h_store", tier="thorough",
       enforce=[], plain=True, remove_bodies=["rtr_send_error_pdu_from_host"], allow_undefined=True, checked_by_assertions=["rtr_sync_receive_and_store_pdus", "rtr_receive_pdu", "rtr_update_pfx_table", "rtr_undo_update_pfx_table",
                                          "rtr_update_spki_table", "rtr_undo_update_spki_table", "rtr_store_prefix_pdu", "rtr_store_router_key_pdu"], need_classes=["assertion"],
@@ -652,6 +668,26 @@ UNITS = [
       checked_by_assertions=["pfx_table_free", "trie_remove"], need_classes=["assertion"],
       kind="bounded: every trie shape of 2 levels (root + up to two children), 1..2 records per node", bound=6, unwindset={"trie_remove": 3},
       native=None, timeout=1800, allow_undefined=True, cbmc_flags=["--sat-solver", "cadical"], stubs=["lrtr_free", "pthread_rwlock_*", "lrtr_ip_addr_*"]),
+    U(id="spki_add", props=["C10", "C16", "C18"], file="units/spki_ops.c", entry="h_spki_add", tier="lab", defines=["H_ENTRY=h_spki_add", "KN=2"], enforce=[], plain=True,
+      checked_by_assertions=["spki_table_add_entry", "key_entry_cmp", "tommy_hashlin_search"], need_classes=["assertion"], kind="bounded: bucket chain / list of at most 2 entries",
+      bound=93, unwindset={"tommy_hashlin_search.0": 4, "tommy_hashlin_remove.0": 4},
+      native=None, timeout=1800, allow_undefined=True, stubs=["lrtr_malloc", "lrtr_free", "tommy_hashlin_insert", "tommy_hashlin_remove", "pthread_rwlock_*"]),
+    U(id="spki_remove", props=["C10", "C16", "C18"], file="units/spki_ops.c", entry="h_spki_remove", tier="lab", defines=["H_ENTRY=h_spki_remove", "KN=2"], enforce=[], plain=True,
+      checked_by_assertions=["spki_table_remove_entry", "key_entry_cmp", "tommy_hashlin_search"], need_classes=["assertion"], kind="bounded: bucket chain / list of at most 2 entries",
+      bound=93, unwindset={"tommy_hashlin_search.0": 4, "tommy_hashlin_remove.0": 4},
+      native=None, timeout=1800, allow_undefined=True, stubs=["lrtr_malloc", "lrtr_free", "tommy_hashlin_insert", "tommy_hashlin_remove", "pthread_rwlock_*"]),
+    U(id="spki_get_all", props=["C10", "C16", "C18"], file="units/spki_ops.c", entry="h_spki_get_all", defines=["H_ENTRY=h_spki_get_all"], enforce=[], plain=True,
+      checked_by_assertions=["spki_table_get_all"], need_classes=["assertion"], kind="bounded: bucket chain / list of at most 3 entries",
+      bound=93, unwindset={"spki_table_get_all.0": 5, "spki_table_search_by_ski.0": 5, "spki_table_src_remove.0": 5},
+      native=None, timeout=1800, allow_undefined=True, stubs=["lrtr_realloc", "lrtr_free", "tommy_hashlin_remove_existing", "pthread_rwlock_*"]),
+    U(id="spki_search", props=["C10", "C16", "C18"], file="units/spki_ops.c", entry="h_spki_search", defines=["H_ENTRY=h_spki_search"], enforce=[], plain=True,
+      checked_by_assertions=["spki_table_search_by_ski"], need_classes=["assertion"], kind="bounded: bucket chain / list of at most 3 entries",
+      bound=93, unwindset={"spki_table_get_all.0": 5, "spki_table_search_by_ski.0": 5, "spki_table_src_remove.0": 5},
+      native=None, timeout=1800, allow_undefined=True, stubs=["lrtr_realloc", "lrtr_free", "tommy_hashlin_remove_existing", "pthread_rwlock_*"]),
+    U(id="spki_src_remove", props=["C10", "C16", "C18"], file="units/spki_ops.c", entry="h_spki_src_remove", defines=["H_ENTRY=h_spki_src_remove"], enforce=[], plain=True,
+      checked_by_assertions=["spki_table_src_remove"], need_classes=["assertion"], kind="bounded: bucket chain / list of at most 3 entries",
+      bound=93, unwindset={"spki_table_get_all.0": 5, "spki_table_search_by_ski.0": 5, "spki_table_src_remove.0": 5},
+      native=None, timeout=1800, allow_undefined=True, stubs=["lrtr_realloc", "lrtr_free", "tommy_hashlin_remove_existing", "pthread_rwlock_*"]),
     # ------------------------------------------------------------------ C20
     U(id="c20_state_names", props=["C20"], file="units/c20_state_names.c", entry="h_c20_state",
       enforce=["rtr_state_to_str"], kind="complete", bound=70,
